@@ -141,6 +141,45 @@ def run(ctx, rep):
     _predtable.run_conditions(F, rep)
     _identity.run(F, rep)
     _identity.zip_lengths(F, rep, "C03.zip-length")
+    signature_invariance(F, rep, "C03.signature-invariance")
+
+
+def signature_invariance(F, rep, rule):
+    """`T?` accepts a `T` when a *value* is checked against a type (TypeLayout::eq_complex looks through the optional unless the flags say
+    `signature_check`).  For the parameters of two function types that relaxation is unsound - a `fn(int)` handed over where `fn(int?)` is
+    expected will be called with nil - so wherever `<FunctionType as PartialEq>::eq` compares parameter types, the flags it passes to
+    eq_complex have signature_check set: they come from `TypecheckFlags::signature_check()` (or a literal with the field true)."""
+    eq = None
+    for f in F.crates["compiler"].fns:
+        if f.path.endswith("function::FunctionType as core::cmp::PartialEq>::eq"):
+            eq = f
+    if eq is None:
+        raise AnchorMissing("<FunctionType as PartialEq>::eq")
+    bodies = [eq] + list(F.closures_of(eq))
+    n = 0
+    for g in bodies:
+        for c in g.calls_to("compiler::ast::r#type::TypeLayout::eq_complex"):
+            n += 1
+            l = op_local(c.args[2]) if len(c.args) > 2 else None
+            ok, why = False, "flags operand not traced"
+            if l is not None:
+                oc = rules.origin_calls(g, l, transparent=rules.TRANSPARENT)
+                # a closure that captured `&flags`: look the captured value up in the parent
+                if not oc and g is not eq:
+                    for bi, si, dst, rv, s_ in eq.assigns():
+                        if "agg" in rv and rv["agg"].get("k") == "closure" and rv["agg"].get("def") == g.path:
+                            for o in rv["ops"]:
+                                lo = op_local(o)
+                                if lo is not None and "TypecheckFlags" in eq.locals[lo]:
+                                    oc += rules.origin_calls(eq, lo, transparent=rules.TRANSPARENT)
+                names = sorted({mir.short(o.callee()) for o in oc})
+                if oc and all(o.callee().endswith("TypecheckFlags<T>::signature_check") or mir.short(o.callee()).endswith("::signature_check") for o in oc):
+                    ok, why = True, ""
+                else:
+                    why = "the flags come from %s: `T?` then accepts `T`, so a `fn(int)` passes for a `fn(int?)` and is later called with nil" % (names or "an untraced value")
+            rep.ob(rule, "%s compares parameter types with signature_check set" % mir.short(g.path), "ok" if ok else "violated", why, c.span, fn=g.path,
+                   key="%s|%s|#%d" % (rule, mir.short(g.path), n))
+    rep.floor(rule + " parameter comparisons in FunctionType::eq", n, 1)
 
 
 def return_scope(F, rep):
